@@ -141,7 +141,12 @@ pub fn gen_valid(kind: Kind, rng: &mut Rng) -> String {
         }
         Kind::Mxc => {
             let n = rng.below(12);
-            format!("mxc://{}/{}", gen_server(rng), b64(rng, n, b"-_"))
+            let media = if rng.chance(1, 4) {
+                (*rng.pick(&["", "a.b", ".", "a b", "é", "a/b", "/", "a\u{0}", "%41", "a+b", "a=", "~", "A-_z9", "a:b", "٣"])).to_owned()
+            } else {
+                b64(rng, n, b"-_")
+            };
+            format!("mxc://{}/{media}", gen_server(rng))
         }
         Kind::RoomVersion => (*rng
             .pick(&["1", "2", "10", "11", "12", "org.matrix.msc2870", "a-b", "A.1", "0", "x", "1.0-beta", "é", "v_1", ""]))
